@@ -671,7 +671,13 @@ pub fn run(cfg: RunCfg) {
         "2..4 paid uploads of one address to one node: verdicts of the contract per quote and per step, reachability, this node's first quote re-sent in later proofs, payload validity (scratchpads), record pruned between steps; every upload of new data is judged on its own proof. non-trivial: a new-data upload after this node's quote was confirmed once, with that quote re-sent",
         seq_strategy, check_sequence
     );
+    vh_core::section!(
+        rep, "issued_quote", (1_500, 30_000), 16,
+        &format!("{}. non-trivial: >= 2 new-data uploads judged, one of them with a quote the node issued for another address", crate::c10q::RULE),
+        crate::c10q::strategy, crate::c10q::check
+    );
     vh_core::fuzz_section!(rep, "payment", case_strategy, check, "sec_node", "node", 8_000, 300, 12);
     vh_core::fuzz_section!(rep, "sequence", seq_strategy, check_sequence, "sec_node", "node", 4_000, 300, 12);
+    vh_core::fuzz_section!(rep, "issued_quote", crate::c10q::strategy, crate::c10q::check, "sec_node", "node", 3_000, 300, 12);
     rep.finish();
 }
